@@ -159,13 +159,24 @@ def step_obligations(pid, tier, seed, check, mutating_only=False):
 # ---------------------------------------------------------------------------
 # C02: range searches, minKey/maxKey, lazy sequences
 
-def tree_shapes(tier, seed, kinds=('BTree', 'TreeSet'), quick_extra=(8, 3), maxranks_quick=None, sizes=None):
-    """-> list of (kind, tag, tpl, hist, L, I), bounds"""
+THOROUGH_CAP = {}       # property id -> max number of non-core shapes per (kind, node size) in the thorough tier
+
+
+def tree_shapes(tier, seed, kinds=('BTree', 'TreeSet'), quick_extra=(8, 3), maxranks_quick=None, sizes=None, cap=None):
+    """-> list of (kind, tag, tpl, hist, L, I), bounds.  cap: the thorough tier takes the stratified core plus a
+    VERIF_SEED-rotated sample of `cap` further shapes of each complete catalogue (None = the complete catalogue)."""
     out = []
     bounds = {}
+    rnd = random.Random(seed)
     for kind, qe in zip(kinds, quick_extra):
         sh, st = pick_shapes(tier, seed, 2, 2, 'OO', kind, quick_extra=qe)
         bounds['shapes_' + kind] = st
+        if tier != 'quick' and cap is not None:
+            core_ = [x for x in sh if x[0] == 'core']
+            rest = [x for x in sh if x[0] != 'core']
+            rnd.shuffle(rest)
+            sh = core_ + rest[:cap]
+            bounds['shapes_' + kind + '_used'] = '%d core + %d sampled of %d' % (len(core_), len(rest[:cap]), len(rest))
         for tag, tpl, hist in sh:
             if tier == 'quick' and maxranks_quick and shapes.n_ranks(tpl) > maxranks_quick and tag != 'core':
                 continue
@@ -175,15 +186,22 @@ def tree_shapes(tier, seed, kinds=('BTree', 'TreeSet'), quick_extra=(8, 3), maxr
             for kind in kinds:
                 c, st = cat('OO', 'c', kind, 6, L, I)
                 bounds['shapes_%s_%d_%d' % (kind, L, I)] = st
-                for tpl in sorted(c, key=repr):
+                tpls = sorted(c, key=repr)
+                if cap is not None and len(tpls) > cap // 2:
+                    core_ = shapes.stratify(c, L, I)
+                    rest = [x for x in tpls if x not in core_]
+                    rnd.shuffle(rest)
+                    tpls = core_ + rest[:cap // 2]
+                    bounds['shapes_%s_%d_%d_used' % (kind, L, I)] = '%d core + %d sampled of %d' % (len(core_), len(rest[:cap // 2]), len(rest))
+                for tpl in tpls:
                     out.append((kind, 'all%d%d' % (L, I), tpl, c[tpl], L, I))
     return out, bounds
 
 
 def range_obligations(pid, tier, seed):
     obs = []
-    timeout = 120 if tier == 'quick' else 900
-    sh, bounds = tree_shapes(tier, seed, quick_extra=(4, 2))
+    timeout = 120 if tier == 'quick' else 600
+    sh, bounds = tree_shapes(tier, seed, quick_extra=(4, 2), cap=60)
     RARGS = [('lo', 'int'), ('hi', 'int'), ('lom', 'int'), ('him', 'int'), ('exmin', 'bool'), ('exmax', 'bool')]
     RPRE = ['0 <= lom < 3', '0 <= him < 3']
     for impl in ('c', 'py'):
@@ -247,7 +265,7 @@ def range_obligations(pid, tier, seed):
 # C19: Length
 
 def length_obligations(pid, tier, seed):
-    t = 120 if tier == 'quick' else 900
+    t = 120 if tier == 'quick' else 600
     obs = [dict(id=pid + '/resolve', mod='h_length', fn='resolve', nk=0,
                 args=[('old', 'int'), ('da', 'int'), ('db', 'int'), ('dc', 'int')], params={}, timeout=t)]
     for k in ((1, 2, 3) if tier == 'quick' else (1, 2, 3, 4)):
@@ -267,7 +285,7 @@ def length_obligations(pid, tier, seed):
 
 def merge_obligations(pid, tier, seed):
     obs = []
-    t = 300 if tier == 'quick' else 1800
+    t = 300 if tier == 'quick' else 600
     mx = 2 if tier == 'quick' else 3
     for kind in ('Bucket', 'Set', 'BTree', 'TreeSet'):
         is_set = kind in ('Set', 'TreeSet')
@@ -310,7 +328,7 @@ def merge_obligations(pid, tier, seed):
 
 def setop_obligations(pid, tier, seed):
     obs = []
-    t = 200 if tier == 'quick' else 1200
+    t = 200 if tier == 'quick' else 600
     mx = 2 if tier == 'quick' else 3
     kinds = ['Set', 'TreeSet', 'Bucket', 'BTree', 'list', 'iter', 'None']
     for impl in ('c', 'py'):
@@ -355,7 +373,7 @@ def setop_obligations(pid, tier, seed):
 
 def state_obligations(pid, tier, seed):
     obs = []
-    t = 200 if tier == 'quick' else 1200
+    t = 200 if tier == 'quick' else 600
     sh, bounds = tree_shapes(tier, seed, quick_extra=(6, 2))
     ARGS = [('x', 'int'), ('op', 'int')]
     PRE = ['0 <= op < 6']
@@ -390,7 +408,7 @@ def state_obligations(pid, tier, seed):
 def corrupt_obligations(pid, tier, seed):
     from harness import h_corrupt
     obs = []
-    t = 200 if tier == 'quick' else 1200
+    t = 200 if tier == 'quick' else 600
     sh, bounds = tree_shapes(tier, seed, quick_extra=(5, 2))
     for impl in ('c', 'py'):
         for kind, tag, tpl, hist, L, I in sh:
@@ -421,8 +439,8 @@ def corrupt_obligations(pid, tier, seed):
 
 def cmpfail_obligations(pid, tier, seed):
     obs = []
-    t = 300 if tier == 'quick' else 1800
-    sh, bounds = tree_shapes(tier, seed, quick_extra=(3, 1))
+    t = 300 if tier == 'quick' else 600
+    sh, bounds = tree_shapes(tier, seed, quick_extra=(3, 1), cap=40)
     F = ['1 <= f <= 40']
     for impl in ('c', 'py'):
         for kind, tag, tpl, hist, L, I in sh:
@@ -464,8 +482,8 @@ def cmpfail_obligations(pid, tier, seed):
 
 def commit_obligations(pid, tier, seed):
     obs = []
-    t = 300 if tier == 'quick' else 1800
-    sh, bounds = tree_shapes(tier, seed, quick_extra=(4, 1))
+    t = 300 if tier == 'quick' else 600
+    sh, bounds = tree_shapes(tier, seed, quick_extra=(4, 1), cap=60)
     for impl in ('c', 'py'):
         for kind, tag, tpl, hist, L, I in sh:
             m = shapes.n_ranks(tpl)
@@ -496,8 +514,8 @@ def commit_obligations(pid, tier, seed):
 
 def evict_obligations(pid, tier, seed):
     obs = []
-    t = 300 if tier == 'quick' else 1800
-    sh, bounds = tree_shapes(tier, seed, quick_extra=(3, 1))
+    t = 300 if tier == 'quick' else 600
+    sh, bounds = tree_shapes(tier, seed, quick_extra=(3, 1), cap=50)
     for impl in ('c', 'py'):
         for kind, tag, tpl, hist, L, I in sh:
             m = shapes.n_ranks(tpl)
@@ -538,8 +556,8 @@ def evict_obligations(pid, tier, seed):
 
 def txn_obligations(pid, tier, seed):
     obs = []
-    t = 400 if tier == 'quick' else 2400
-    sh, bounds = tree_shapes(tier, seed, quick_extra=(4, 2))
+    t = 400 if tier == 'quick' else 600
+    sh, bounds = tree_shapes(tier, seed, quick_extra=(4, 2), cap=60)
     if tier == 'quick':
         # leaves with spare room (a concurrent insert that does not split) need leaf size 3
         c32, st32 = cat('OO', 'c', 'BTree', 5, 3, 2)
@@ -585,8 +603,8 @@ def _patterns(maxlen, maxmut):
 def iter_obligations(pid, tier, seed):
     obs = []
     quick = tier == 'quick'
-    t = 60 if quick else 900
-    sh, bounds = tree_shapes(tier, seed, quick_extra=(0, 0))
+    t = 60 if quick else 600
+    sh, bounds = tree_shapes(tier, seed, quick_extra=(0, 0), cap=30)
     if quick:
         pats_it = ['NDN', 'NNDN', 'NDDN', 'NPN', 'NCN', 'NIN', 'DNN', 'NDNDN']
         pats_lazy = ['NDN', 'NPN', 'NCN']
@@ -649,8 +667,8 @@ def ref_obligations(pid, tier, seed):
     from harness import h_ref
     obs = []
     quick = tier == 'quick'
-    t = 120 if quick else 1200
-    sh, bounds = tree_shapes(tier, seed, quick_extra=(4, 2))
+    t = 120 if quick else 600
+    sh, bounds = tree_shapes(tier, seed, quick_extra=(4, 2), cap=80)
     for kind, tag, tpl, hist, L, I in sh:
         m = shapes.n_ranks(tpl)
         is_set = kind == 'TreeSet'
@@ -677,8 +695,8 @@ def oom_obligations(pid, tier, seed):
     from harness import h_oom
     obs = []
     quick = tier == 'quick'
-    t = 150 if quick else 1500
-    sh, bounds = tree_shapes(tier, seed, quick_extra=(3, 1))
+    t = 150 if quick else 600
+    sh, bounds = tree_shapes(tier, seed, quick_extra=(3, 1), cap=50)
     for kind, tag, tpl, hist, L, I in sh:
         m = shapes.n_ranks(tpl)
         is_set = kind == 'TreeSet'
@@ -722,8 +740,8 @@ def diff_obligations(pid, tier, seed):
     from harness import h_diff
     obs = []
     quick = tier == 'quick'
-    t = 200 if quick else 1500
-    sh, bounds = tree_shapes(tier, seed, quick_extra=(5, 2))
+    t = 200 if quick else 600
+    sh, bounds = tree_shapes(tier, seed, quick_extra=(5, 2), cap=100)
     for kind, tag, tpl, hist, L, I in sh:
         m = shapes.n_ranks(tpl)
         is_set = kind == 'TreeSet'
@@ -767,7 +785,7 @@ def repr_obligations(pid, tier, seed):
     from harness import h_repr
     obs = []
     quick = tier == 'quick'
-    t = 200 if quick else 1500
+    t = 200 if quick else 600
     for fam in ('II', 'UU', 'LL', 'QQ') + (() if quick else ('IU', 'UI', 'LQ', 'QL')):
         for kind in ('BTree', 'Bucket', 'TreeSet', 'Set'):
             ne = len(h_repr.SET_ENTRIES if kind in ('Set', 'TreeSet') else h_repr.ENTRIES)
@@ -793,7 +811,7 @@ def weighted_obligations(pid, tier, seed):
     from harness import h_weighted
     obs = []
     quick = tier == 'quick'
-    t = 200 if quick else 1500
+    t = 200 if quick else 600
     kinds = ['Set', 'TreeSet', 'Bucket', 'BTree', 'None']
     mx = 2 if quick else 3
     for impl in ('c', 'py'):
@@ -850,7 +868,7 @@ def multi_obligations(pid, tier, seed):
     from harness import h_multi, h_repr
     obs = []
     quick = tier == 'quick'
-    t = 200 if quick else 1500
+    t = 200 if quick else 600
     for fam in MULTI_QUICK:
         lo, hi = h_repr.RANGES[h_multi.FMT[fam[0]]]
         for nops in (1, 2):
